@@ -1,4 +1,5 @@
 import KyupyVerif.Proofs.HeapInv
+import KyupyVerif.Proofs.HeapCanon
 import KyupyVerif.Proofs.MemRef
 import KyupyVerif.Model.MapCert
 import KyupyVerif.Proofs.MapSound
@@ -49,6 +50,29 @@ theorem alloc_never_overlaps (h : Heap) (n : Nat) :
 theorem free_releases_exactly (h h' : Heap) (loc : Nat) (hi : HInv h) (hf : h.free loc = some h') :
     ∃ n, (loc, n) ∈ h.used ∧ (∀ r, r ∈ h.used ↔ r = (loc, n) ∨ r ∈ h'.used) ∧ total h'.cs ≤ total h.cs :=
   free_spec h h' loc hi hf
+
+/-- exact release, sharpened: after a release the live regions are precisely the former ones that do not start at the
+    released address (in particular the released region is gone), and a release fails only when no live region starts there -/
+theorem free_removes_exactly (h h' : Heap) (loc : Nat) (hi : HInv h) (hf : h.free loc = some h') :
+    ∀ r, r ∈ h'.used ↔ r ∈ h.used ∧ r.1 ≠ loc := free_used_iff h h' loc hi hf
+
+theorem free_fails_only_on_dead (h : Heap) (hi : HInv h) (loc : Nat) (hf : h.free loc = none) : ∀ r ∈ h.used, r.1 ≠ loc :=
+  free_none_iff h hi loc hf
+
+/-- canonical form: under the invariant the whole chunk table is a function of the SET of live regions (free chunks are
+    exactly the maximal gaps between them) -/
+theorem heap_determined_by_live_set (h1 h2 : Heap) (i1 : HInv h1) (i2 : HInv h2) (he : ∀ r, r ∈ h1.used ↔ r ∈ h2.used) :
+    h1.cs = h2.cs := cs_of_used h1 h2 i1 i2 he
+
+/-- releasing a collection of locations (as `SimOps` does at the end of a level, iterating a Python `set`): the resulting
+    heap — chunk table and high-water mark — depends only on the set of locations, not on the iteration order -/
+theorem release_order_irrelevant (h : Heap) (hi : HInv h) (l1 l2 : List Int)
+    (he : ∀ x, x ∈ l1.map Int.toNat ↔ x ∈ l2.map Int.toNat) : freeAll h l1 = freeAll h l2 :=
+  freeAll_order_irrelevant h hi l1 l2 he
+
+example : let h : Heap := { cs := [⟨2, false⟩, ⟨3, false⟩, ⟨1, false⟩, ⟨4, false⟩, ⟨2, false⟩], maxSz := 12 }
+    (freeAll h [2, 6, 5]).cs = [⟨2, false⟩, ⟨8, true⟩, ⟨2, false⟩] ∧ (freeAll h [5, 2, 6]).cs = [⟨2, false⟩, ⟨8, true⟩, ⟨2, false⟩] ∧
+    (freeAll h [6, 5, 2, 2, 7]).cs = [⟨2, false⟩, ⟨8, true⟩, ⟨2, false⟩] ∧ (freeAll h [2, 6, 5]).maxSz = 12 := by decide
 
 /-- live regions are pairwise disjoint, ordered, and inside `[0, current size)` — the regions tile the range -/
 theorem regions_tile (h : Heap) :
